@@ -150,7 +150,9 @@ func interposeOverlays(repo, verif, scratch string, onlyPkg string) (map[string]
 			}
 		}
 		if !found {
-			return nil, fmt.Errorf("stub target %s not found in %s", t.key, dir)
+			// the target no longer exists in this tree (renamed or removed): harnesses that
+			// stub it cannot replay (they report a mismatch), the others are unaffected
+			fmt.Fprintf(os.Stderr, "interpose: stub target %s not found in %s (skipped)\n", t.key, dir)
 		}
 	}
 	out := map[string]string{}
